@@ -265,6 +265,12 @@ def render(items):
         "  simp only [familySpecs, List.mem_cons, List.not_mem_nil, or_false] at hp",
         "  rcases hp with " + " | ".join(["rfl"] * len(fam_items)),
     ] + ["  · exact SchemaBuilds.%s_builds" % (it[1][0].lower() + it[1][1:]) for it in fam_items] + [
+        "",
+        "theorem family_compiles : ∀ p ∈ familySpecs, compileSchema p.1 (p.2.nodes.toList.map (·.dfa)) = .ok p.2 := by",
+        "  intro p hp",
+        "  simp only [familySpecs, List.mem_cons, List.not_mem_nil, or_false] at hp",
+        "  rcases hp with " + " | ".join(["rfl"] * len(fam_items)),
+    ] + ["  · exact SchemaBuilds.%s_compiles" % (it[1][0].lower() + it[1][1:]) for it in fam_items] + [
         "", "end PM.Gen"]
     files["SchemaBuilds.lean"] = "\n".join(lb) + "\n"
     return files
@@ -314,7 +320,7 @@ def gen_theorems(items, builds):
         for name, ident, fam, sd, dump in items:
             names.append("PM.Gen.SchemaBuilds.%s_compiles" % lid(ident))
             names.append("PM.Gen.SchemaBuilds.%s_builds" % lid(ident))
-        names.append("PM.Gen.family_builds")
+        names += ["PM.Gen.family_builds", "PM.Gen.family_compiles"]
     return names
 
 
